@@ -158,6 +158,8 @@ LcShape(i) ==
     [] i = 4 -> << [l |-> 1, terms |-> << <<1, 1>> >>], [l |-> 2, terms |-> << <<1, LastL>> >>] >>
     [] i = 5 -> << [l |-> 1, terms |-> << <<0, 1>>, <<1, LastL>> >>] >>
     [] i = 6 -> << [l |-> 1, terms |-> << <<1, 1>>, <<1, LastL>> >>], [l |-> 2, terms |-> << <<-1, LastL>>, <<7, 0>> >>] >>
+    \* 99 = a random field element (the harness draws it); a random constant as well
+    [] i = 7 -> << [l |-> 1, terms |-> << <<99, 1>>, <<-1, LastL>>, <<99, 0>> >>] >>
 LcQs(lcs, i) ==
   LET E == {lcs[j].l : j \in DOMAIN lcs} IN
   CASE i = 1 -> {<<e, 1, 1>> : e \in E}
@@ -315,7 +317,7 @@ ProofMut(g, comp, k) == [M("proof_mut") EXCEPT !.l = g - 1, !.comp = comp, !.k =
 Components ==
   CASE S \in {"marlin", "sonic"} -> {"replace:w"} \cup (IF \E l \in L : polys[l].hid # NONE THEN {"replace:random_v", "drop_random_v"} ELSE {"add_random_v"})
     [] S = "pst13" -> {"replace:w0", "replace:w_last"} \cup (IF \E l \in L : polys[l].hid # NONE THEN {"replace:random_v", "drop_random_v"} ELSE {})
-    [] S = "ipa" -> {"replace:l0", "replace:r_last", "replace:final_comm_key", "replace:c"}
+    [] S = "ipa" -> {"replace:l0", "replace:l_last", "replace:r0", "replace:r_last", "replace:final_comm_key", "replace:c"}
                     \cup (IF \E l \in L : polys[l].hid # NONE THEN {"replace:hiding_comm", "replace:rand"} ELSE {})
     [] S = "hyrax" -> {"replace:com_eval", "replace:com_d", "replace:com_b", "replace:z0", "replace:z_last", "replace:z_d", "replace:z_b"}
     \* first and last element of every list, and Merkle digests at a position whose leaf index occurred before
